@@ -317,6 +317,29 @@ pub fn reader_mutator_attempts(tx: &Tx, want: &BucketM) -> Result<Vec<String>, S
     })
 }
 
+/// Is the advisory lock on `path` held by somebody?  Asked with raw system calls on a descriptor
+/// of the harness's own (not seen by the scheduler or the fault plan).  None: cannot tell.
+pub fn file_lock_is_held(path: &str) -> Option<bool> {
+    let c = std::ffi::CString::new(path).ok()?;
+    unsafe {
+        let fd = libc::syscall(libc::SYS_open, c.as_ptr(), libc::O_RDONLY | libc::O_CLOEXEC) as i32;
+        if fd < 0 {
+            return None;
+        }
+        let r = libc::syscall(libc::SYS_flock, fd, libc::LOCK_EX | libc::LOCK_NB);
+        let held = if r == 0 {
+            libc::syscall(libc::SYS_flock, fd, libc::LOCK_UN);
+            Some(false)
+        } else if *libc::__errno_location() == libc::EWOULDBLOCK {
+            Some(true)
+        } else {
+            None
+        };
+        libc::syscall(libc::SYS_close, fd);
+        held
+    }
+}
+
 /// Like `exec_op`, but the bucket the operation addresses is reached through the listing
 /// iterators (`tx.buckets()`, `bucket.buckets()`) instead of by name.  Only for non-root paths.
 pub fn exec_op_listed<'tx>(tx: &Tx<'tx>, op: &'tx Op) -> Option<Ret> {
